@@ -27,7 +27,8 @@ EFFECT_CALLS = ["subtract_from_balance", "add_to_balance", "_record_action", "_s
 OPAQUE = ["get_borrow", "health_factor", "supplies", "borrows", "close_position", "base_unit_price_to_sqrt_price_x96",
           "get_twap_price", "get_vault_status", "_get_reduce_debt_bounty", "_remove_liquidity", "check_transaction",
           "_deduct_order_amount", "get_trade_fee", "get_average_price", "get_new_order_list", "_get_swap_amount",
-          "getTokenAmountsFromGM", "getSwapFees", "supplies_value", "rate_to_apy"]
+          "getTokenAmountsFromGM", "getSwapFees", "supplies_value", "rate_to_apy", "get_sqrt_ratio_at_tick", "tick_to_sqrt_price_x96",
+          "sqrt_price_x96_to_tick", "base_unit_price_to_tick", "tick_to_base_unit_price"]
 
 # opt-in configuration branches (one symbol each, with reason)
 EXCEPTIONS = {
